@@ -36,6 +36,17 @@ def inputs(tier, seed):
             out.append(("sv", c["text"], "grammar-sweep"))
     except ImportError:
         pass
+    # library-map texts: the property speaks about EVERY input parse_lib accepts, well-formed or not - all short token
+    # sequences of the library-map vocabulary (missing file paths, stray separators, options without value ...); whatever
+    # is accepted has to tile (round-3 seeded change: an accepted map with an EMPTY file-path leaf)
+    import itertools
+    voc = ["library", "include", "lib", "a.v", "../d/*.sv", ",", ";", "-incdir", "config", "endconfig"]
+    seqs = [q for n in (2, 3, 4) for q in itertools.product(voc, repeat=n) if q[0] in ("library", "include", ";", "config")]
+    rng.shuffle(seqs)
+    for q in seqs[: (700 if quick else 8000)]:
+        out.append(("lib", " ".join(q) + "\n", "lib-fragments"))
+        if rng.random() < 0.2:
+            out.append(("lib", "".join(t if t in (",", ";") else " " + t for t in q).strip() + "\n", "lib-fragments"))
     return out
 
 
